@@ -280,7 +280,8 @@ impl<'a, 'op:'a> StackInfo<'a, 'op> {
 		for &child in children.iter().rev() {
 			let child = as_element(child);
 			if let Some(value) = child.attribute_value(CHANGED_ATTR) {
-				if value == "empty_content" {
+				// the mark can also come in with the input (e.g., MathML returned by MathCAT that was edited) -- only skip what really is empty
+				if value == "empty_content" && CanonicalizeContext::is_empty_element(child) {
 					continue;
 				}
 			}
